@@ -2,13 +2,13 @@
 import hashlib, os, sys, types
 import vlib, gen, gen_dag
 
-LEVEL = "other"
+LEVEL = "proof"
 FAMILY = "hashes"
 
 MANIFEST = {
- "level": 'other',
- "text": "Proved for every tree and an arbitrary hash function H about the Gallina models: tree_hash_costed (the sha256tree operator's body, inline and heap atoms, with its cost and CostExceeded behaviour), ObjectCache+treehash on any arena, InternedTree::tree_hash, the Python Treehasher stack machine (with and without its per-object cache) and tree_hash_from_stream all return the recursive treehash; the 37 precomputed small-atom hashes the translator re-reads from more_ops.rs equal sha256(1 || canonical bytes of i) (decided by evaluating a Gallina SHA-256). Not proved: parse_triples' hash array (modelled, compared, no theorem). All Rust hashers are run on the same trees and compared with each other, with the model, with hashlib, and with the pure-Python Treehasher loaded from the wheel's source.",
- "note": vlib.NOTE_COMMON + " Level 'other' because parse_triples' hashes have no theorem. The Python wheel's native sha256_treehash entry point is not built here; the pure-Python Treehasher (wheel/python/clvm_rs/tree_hash.py) is loaded standalone.",
+ "level": 'proof',
+ "text": "Proved for every tree and an arbitrary hash function H about the Gallina models: tree_hash_costed (the sha256tree operator's body, inline and heap atoms, with its cost and CostExceeded behaviour), ObjectCache+treehash on any arena, InternedTree::tree_hash, the Python Treehasher stack machine (with and without its per-object cache), tree_hash_from_stream and parse_triples (its hash array = the tree hash of every sub-tree in pre-order, entry 0 the tree itself; also its index/panic! sites unreachable) all return the recursive treehash; the 37 precomputed small-atom hashes the translator re-reads from more_ops.rs equal sha256(1 || canonical bytes of i) (decided by evaluating a Gallina SHA-256). All Rust hashers are run on the same trees and compared with each other, with the model, with hashlib, and with the pure-Python Treehasher loaded from the wheel's source.",
+ "note": vlib.NOTE_COMMON + " The Python wheel's native sha256_treehash entry point is not built here; the pure-Python Treehasher (wheel/python/clvm_rs/tree_hash.py) is loaded standalone.",
  "technique": 'Coq proof (stack-machine simulation lemmas by induction over the tree; finite table decided by vm_compute over the translator-generated table) + model/implementation differential run + cross-implementation search with hashlib as independent reference',
 }
 
@@ -62,7 +62,7 @@ def run(ctx):
                 "atom randomly inline (new_atom) or forced onto the heap; every integer 0..40 (and 127,128,255,256,2^26-1,2^26) alone and in a pair, in both "
                 "representations; deep left and right lists; the costed hasher with budgets exactly at / one below / one above its cost. Model cases keep the "
                 "hashed bytes small (extracted SHA-256); the implementation-only search uses larger trees with hashlib as reference. non-trivial = at least one pair")
-    ctx.explanation = ("Proof: Props/C22.v (every hasher except parse_triples, arbitrary H; the precomputed table by evaluation). Correspondence: hash and the two costs of "
+    ctx.explanation = ("Proof: Props/C22.v (every hasher of the statement, arbitrary H; the precomputed table by evaluation). Correspondence: hash and the two costs of "
                        "tree_hash_costed, model vs implementation, and CostExceeded at the budget boundary. Search: seven Rust hashers (tree_hash_costed and op_sha256_tree under both cost "
                        "models, ObjectCache, InternedTree::tree_hash, tree_hash_from_stream, parse_triples) must agree with each other, with hashlib's recursive sha256 tree hash, and "
                        "with the pure-Python Treehasher (objects with and without attribute caching).")
